@@ -71,6 +71,7 @@ class Contract:
         # names of @spec_fn functions whose definition this contract's proof never unfolds (used by congruence only)
         self.opaque_specs = set(kw.pop("opaque_specs", []))
         self.mixed_int_merge = kw.pop("mixed_int_merge", False)
+        self.tier = kw.pop("tier", "quick")      # "thorough": verified only by the thorough tier (long-running compositions)
         if kw:
             raise TypeError("unknown contract options %r for %s" % (list(kw), key))
         self._clauses = {}
